@@ -170,7 +170,39 @@ def apply_gating(root: pathlib.Path):
             n += 1
     if n == 0:
         return []
+    # operator gating: inside the exec dispatch of BinOperation / UnaryOperation every single-operator
+    # arm `BinOperator::X => expr,` becomes `BinOperator::X => { gate_binop(BinOperator::X); expr },`.
+    # A garbage (unresolved) operator would otherwise drive CBMC into the iterator operators, whose
+    # lazy_static initialisers run the pest parser.
+    gen[-2:-2] = [
+        '    pub static mut ALLOWED_BINOPS: u64 = u64::MAX;',
+        '    pub static mut ALLOWED_UNOPS: u32 = u32::MAX;',
+        '    pub fn allow_binops(m: u64) { unsafe { ALLOWED_BINOPS = m; } }',
+        '    pub fn allow_unops(m: u32) { unsafe { ALLOWED_UNOPS = m; } }',
+        '    pub const fn b(op: crate::BinOperator) -> u64 { 1u64 << (op as u8) }',
+        '    pub const fn u(op: crate::unary_operator::UnaryOperator) -> u32 { 1u32 << (op as u8) }',
+        '    /// every operator except the iterator operators and calls (which run parsed SimpleSL code)',
+        '    pub fn scalar_ops_only() { unsafe {',
+        '        ALLOWED_BINOPS = !(b(crate::BinOperator::Filter) | b(crate::BinOperator::Map) | b(crate::BinOperator::Partition) | b(crate::BinOperator::FunctionCall));',
+        '        ALLOWED_UNOPS = u(crate::unary_operator::UnaryOperator::Not) | u(crate::unary_operator::UnaryOperator::UnaryMinus) | u(crate::unary_operator::UnaryOperator::Return) | u(crate::unary_operator::UnaryOperator::Indirection);',
+        '    } }',
+        '    #[inline(always)] pub fn gate_binop(op: crate::BinOperator) { if unsafe { ALLOWED_BINOPS } & b(op) == 0 { panic!("binary operator outside the set declared by the harness") } }',
+        '    #[inline(always)] pub fn gate_unop(op: crate::unary_operator::UnaryOperator) { if unsafe { ALLOWED_UNOPS } & u(op) == 0 { panic!("unary operator outside the set declared by the harness") } }',
+    ]
     f.write_text(s + '\n'.join(gen))
+    for rel, enum, gate in (('src/instruction/bin_op.rs', 'BinOperator', 'gate_binop'), ('src/instruction/unary_operation.rs', 'UnaryOperator', 'gate_unop')):
+        g = root / rel
+        if not g.exists():
+            continue
+        t = g.read_text()
+        m2 = re.search(r'impl Exec for \w+ \{.*?\n\}\n', t, re.S)
+        if not m2:
+            continue
+        blk = m2.group(0)
+        blk2 = re.sub(r'^(\s+)(' + enum + r'::(\w+)) => (?!\{)([^\n]*),$',
+                      lambda mm: f"{mm.group(1)}{mm.group(2)} => {{ #[cfg(kani)] crate::instruction::verif_gate::{gate}({mm.group(2)}); {mm.group(4)} }},",
+                      blk, flags=re.M)
+        g.write_text(t.replace(blk, blk2))
     return [v[0] for v in variants]
 
 def apply_layout(root: pathlib.Path):
